@@ -17,6 +17,7 @@ static const int PT[] = {KALIGN_TYPE_UNDEFINED, KALIGN_TYPE_PROTEIN, KALIGN_TYPE
 #define NAMP 24         /* duplicated sequence plus two relatives that share a long verbatim prefix with it and carry a pseudo tandem
                            duplication on opposite sides of one block: copies that are not joined first get different gap positions */
 #define NAMP2 4         /* the same with a 9000-residue duplicated sequence and 100-residue near-fragments (3 inserted residues) */
+#define NTIESMALL 112   /* the tie family scaled down to shared prefixes of 70 and 300 residues: below the 1024 cap the distances are exact, the copies must be joined first */
 #define NLONG 96         /* long duplicated sequence plus shorter relatives at substring edit distance exactly 256 / 512 */
 
 static const struct fam* fams(int tier, int* n)
@@ -38,7 +39,7 @@ uint64_t vh_total(int tier)
         for(i = 0; i < n; i++){
                 t += fsize(&F[i]);
         }
-        return t + NMANY + NLONG + NFRAG + NAMP + NAMP2 + SH_NTIE;
+        return t + NMANY + NLONG + NFRAG + NAMP + NAMP2 + SH_NTIE + 2 * NTIESMALL;
 }
 
 struct dcase { struct kx_set in; int type; int protein; int many; };
@@ -65,6 +66,15 @@ static void decode(uint64_t id, int tier, struct dcase* c)
                         return;
                 }
                 id -= sz;
+        }
+        if(id >= NMANY + NLONG + NFRAG + NAMP + NAMP2 + SH_NTIE){
+                int k = (int)(id - NMANY - NLONG - NFRAG - NAMP - NAMP2 - SH_NTIE);
+                kx_set_free(&c->in);
+                sh_tie_build_scaled(k % NTIESMALL, k < NTIESMALL ? 70 : 300, &c->in);
+                c->many = 6000 + k;
+                c->protein = (k % NTIESMALL) & 1;
+                c->type = KALIGN_TYPE_UNDEFINED;
+                return;
         }
         if(id >= NMANY + NLONG + NFRAG + NAMP + NAMP2){
                 /* sequences that share their first 1030 residues (the exact distance looks at 1024): all pairs tie */
